@@ -12,6 +12,12 @@ VERIF = Path(__file__).resolve().parent.parent
 
 # id -> (level category, technique, level text, level note, design section)
 CHECKS = {
+    "C15": (
+        "exploration",
+        "Hypothesis RuleBasedStateMachine over solve/reopen/truncate/zero/junk/clear histories against a model (memo of uncached results + entry-file ownership); enumeration of truncation offsets; a real second process",
+        "Model-based stateful search: every cached solve must equal the uncached memo exactly, intact entries must hit without a put, damaged files must neither raise nor be returned; the request alphabet enumerates every parameter of the solver signature as a single-argument variant. Thorough enumerates every byte offset of stored entries (fault enumeration of the crash-point quantifier).",
+        "Crash points = prefixes of a stored entry (plus stray files); block-reordering torn writes not modelled.",
+    ),
     "C08": (
         "exploration",
         "Hypothesis end-to-end search through parse_config_dict + run_bldfm_single with a centroid-bearing oracle; unit relations of the wind decomposition",
